@@ -35,6 +35,8 @@ class Obligation:
     regions: Dict[str, Callable[[Dict[str, Any], str], bool]] = dataclasses.field(
         default_factory=dict
     )
+    # finding-id -> predicate(part) telling whether the region can intersect a partition at all (default: yes)
+    region_parts: Dict[str, Callable[[Dict[str, Any]], bool]] = dataclasses.field(default_factory=dict)
     # level-2 replay through the public API without stubs: args -> violation or None
     replay: Optional[Callable[[Dict[str, Any]], Optional[str]]] = None
     tiers: tuple = ("quick", "thorough")
